@@ -371,7 +371,7 @@ func (x *G) Decl() string {
 		}
 	case 24:
 		name = x.pick("stringprop", []string{"content", "quotes", "font-feature-settings", "grid-template-areas"})
-		val = x.pick("string", []string{"\"a\"", "'a'", "\"a\\\"b\"", "'it\\'s'", "\"\\201C\"", "\"a\\\nb\"", "\"</style>\"", "'\\A'", "\"x\" attr(data-x) 'y'", "\"a b\" \"c d\"", "counter(Item) \". \"", "\"\\a0 \"", "'\"'"})
+		val = x.pick("string", []string{"\"a\"", "'a'", "\"a\\\"b\"", "'it\\'s'", "\"\\201C\"", "\"a\\\nb\"", "\"</style>\"", "'\\A'", "\"x\" attr(data-x) 'y'", "\"a b\" \"c d\"", "counter(Item) \". \"", "\"\\a0 \"", "'\"'", "\"a   b\"", "'two  spaces' \"three   spaces\""})
 		x.Feats["string-value"]++
 	case 25:
 		name = x.pick("urlprop", []string{"cursor", "list-style", "src", "mask", "border-image"})
@@ -384,7 +384,7 @@ func (x *G) Decl() string {
 		x.Feats["url-value"]++
 	case 26:
 		name = "--" + x.pick("customname", []string{"c", "Main-Color", "x_1", "empty"})
-		val = x.pick("customval", []string{"red", " #FF0000 ", "{ a : b }", "1px  solid  RED", "", " ", "calc( 1px + 2px )", "\"str\"", "[a, b]", "0px", "Url(x)", "1.0", "a  /  b"})
+		val = x.pick("customval", []string{"red", " #FF0000 ", "{ a : b }", "1px  solid  RED", "", " ", "calc( 1px + 2px )", "\"str\"", "[a, b]", "0px", "Url(x)", "1.0", "a  /  b", "\"a  b\"", "'x    y' 1px", "\"tab\tand  spaces\""})
 		x.Feats["custom-property"]++
 	case 27:
 		name = x.pick("unknownprop", []string{"-webkit-foo", "zoom", "-ms-filter", "filter", "unknown-thing", "-moz-appearance", "speak"})
